@@ -53,6 +53,13 @@ CXX_TYPES = [
     (("Cls",), "Cls", "must"),
     (("ns::Cls2",), "ns::Cls2", "must"),
 ]
+# C99 complex: both specifier orders name the same type (checked against the recorded typemap only: not C++ spellings)
+COMPLEX_TYPES = [
+    (("float", "complex"), "float_complex", "must"),
+    (("double", "complex"), "double_complex", "must"),
+    (("complex", "float"), "float_complex", "may"),
+    (("complex", "double"), "double_complex", "may"),
+]
 VOID = (("void",), "void", "must")
 
 # pointer chains: list of (symbol, const, volatile)
@@ -163,7 +170,7 @@ class D(object):
 
 
 def types(level):
-    t = [VOID] + NATIVE_TYPES[:6] + CXX_TYPES[:2] + CXX_TYPES[3:4] if level == 1 else [VOID] + NATIVE_TYPES + CXX_TYPES
+    t = [VOID] + NATIVE_TYPES[:6] + CXX_TYPES[:2] + CXX_TYPES[3:4] + COMPLEX_TYPES if level == 1 else [VOID] + NATIVE_TYPES + CXX_TYPES + COMPLEX_TYPES
     if level >= 3:
         t = t + PERMUTED_TYPES
     return t
